@@ -659,7 +659,7 @@ reg(Prop("C08", "Search is reproducible and never overspends its node budget",
                          "WithCounters - hard budget 8k..38k nodes / soft limit with hard cap (datagen style) / soft only, 1-2 plies, "
                          "x4 in the thorough tier - and must reproduce a solo run (itself run twice): move, score, ponder, nodes "
                          "and every printed line modulo time; node counts read from the info lines must not pass the budget"),
-          StreamCfg("search", 600, 6000, judge="judge_search", rule=SEARCH_MODEL_RULE)],
+          StreamCfg("search", 240, 6000, judge="judge_search", rule=SEARCH_MODEL_RULE)],
          trusted=SEARCH_TRUSTED + SKEL_TRUSTED + SEARCH_MODEL_TRUSTED + [
              "determinism with respect to scheduling and wall clock is OBSERVED (two engines in parallel goroutines under CPU load), not proved: "
              "the Go runtime is outside the model; that one Search instance is used by one goroutine only is a reading of the source",
